@@ -122,7 +122,19 @@ def opScalingSpec : Op := fun j => do
     ("spec", outRatMat (Spec.Firm.scalingWeights S w)), ("cut", outRatMat (Spec.Firm.scalingWeightsCut S w)),
     ("corners", Json.arr ((List.range w.length).map fun l0 => outRatMat (Spec.Firm.cornerMatrix S (l0 + 1))).toArray)]
 
-def ops : OpTable := [("c12.firm", opFirm), ("c12.firm_spec", opFirmSpec), ("c12.firm_check", opFirmCheck),
+/-- the FIRM Spec on the extended reals (±inf forecasts / observations / thresholds): "cases" / "mean" = the stated product
+    w·(1−α)·scale·1[false alarm] + w·α·scale·1[miss] in `Fl` arithmetic (0·inf = nan), "dec" = the decision form
+    (if false alarm then … else 0), which differs only where the product is inf·0 -/
+def opFirmX : Op := fun j => do
+  let alpha ← fRat j "alpha"; let d ← fFl j "d"; let mode ← fStr j "mode"
+  let cases ← getList getFirmCase (← field j "cases")
+  let rs := cases.map fun c => Spec.Firm.firmCaseX true (mode == "lower") d alpha c.1 c.2.1 c.2.2
+  let ds := cases.map fun c => Spec.Firm.firmCaseX false (mode == "lower") d alpha c.1 c.2.1 c.2.2
+  pure <| outObj [("cases", Json.arr (rs.map fun r => out3 r.1 r.2.1 r.2.2).toArray),
+    ("dec", Json.arr (ds.map fun r => out3 r.1 r.2.1 r.2.2).toArray),
+    ("mean", out3 (nanmean (rs.map (·.1))) (nanmean (rs.map (·.2.1))) (nanmean (rs.map (·.2.2))))]
+
+def ops : OpTable := [("c12.firm", opFirm), ("c12.firm_spec", opFirmSpec), ("c12.firm_x", opFirmX), ("c12.firm_check", opFirmCheck),
   ("c12.rm", opRm), ("c12.rm_check", opRmCheck), ("c12.mw", opMw), ("c12.scaling", opScaling),
   ("c12.scaling_check", opScalingCheck), ("c12.firm_domain", opFirmDomain), ("c12.rm_domain", opRmDomain),
   ("c12.wfs", opWfs), ("c12.scaling_spec", opScalingSpec)]
